@@ -67,6 +67,17 @@ FAULT_KINDS = {
 # generation
 # --------------------------------------------------------------------------
 
+# `.source` is documented as free-form: within one export it may be a scalar
+# for one tract and a list, tuple or dict for the next (round 15: a writer
+# that decides from its first row which columns hold containers).
+SOURCE_VALUES = (
+    None, "doc 17", 42, "@vol 3", "=A1", 0, {"__bytes": "DOC-0017"}, 2.5, True,
+    ["Book 12", "Page 40"], ["vol 3", ["p 7", "p 8"]], [],
+    {"__tuple": ["reel 9", 114]}, {"__dict": {"book": 12, "page": "40A"}},
+    None, "doc 18", ["Book 13"],
+)
+
+
 def gen_attrs(rng):
     k = rng.choice((1, 2, 3, 4, 5, 8))
     attrs = rng.sample(ATTRIBUTES, k)
@@ -80,6 +91,9 @@ def gen_attrs(rng):
         attrs.append(attrs[0])          # the same column twice
     if rng.random() < 0.15:
         attrs.append(rng.choice(("orig_desc", "desc", "pp_desc", "source")))
+    if "source" not in attrs and rng.random() < 0.12:
+        # the one column whose type may differ from row to row
+        attrs.insert(rng.randrange(len(attrs) + 1), "source")
     return attrs
 
 
@@ -141,8 +155,7 @@ def gen_source(rng):
                     rng, ("clean_qq", "suppress_lot_divs", "qq_depth_min",
                           "segment", "default_ns", "ocr_scrub"), hi=2),
                 "parse_qq": rng.random() < 0.8,
-                "source": rng.choice((None, "doc 17", 42, "@vol 3", "=A1", 0,
-                                      {"__bytes": "DOC-0017"}, 2.5, True))}
+                "source": rng.choice(SOURCE_VALUES)}
     if r < 0.8:
         return {"kind": "desc", "text": rng.choice(corpus.HANDPICKED),
                 "config": None, "parse_qq": True, "source": None}
@@ -412,6 +425,12 @@ def _plan_value(v):
     """Plan data -> the Python value it stands for (JSON has no bytes)."""
     if isinstance(v, dict) and "__bytes" in v:
         return v["__bytes"].encode("ascii")
+    if isinstance(v, dict) and "__tuple" in v:
+        return tuple(_plan_value(x) for x in v["__tuple"])
+    if isinstance(v, dict) and "__dict" in v:
+        return dict(v["__dict"])
+    if isinstance(v, list):
+        return [_plan_value(x) for x in v]
     return v
 
 
